@@ -171,6 +171,8 @@ def expect_propagation(w, child, X):
 def mismatch(obs, exp):
     """list of human-readable differences between the native observation and the expectation"""
     out = []
+    if obs.get("outcome") == "panic":
+        return [f"panic during {obs.get('phase', 'run')}: {obs.get('message')} @ {obs.get('location', '')}"]
     if not obs.get("compiled", False):
         return None   # witness program rejected by the compiler: not a reproduction
     evo0 = ((obs.get("event") or {}).get("Object") or {})
